@@ -201,10 +201,18 @@ def main(tier, replay=None):
             tabs = r.choice([1, 4, 8])
             parent = None if fmt == "json" else r.choice([["git", "grep", "-n", MATCH], ["rg", "-n", MATCH], ["git", "grep", "-n", "-C", "1", MATCH]])
             cases.append({"fmt": fmt, "groups": groups, "style": style, "tabs": tabs, "parent": parent})
+        # hits without line numbers (`git grep pat` without -n): match lines only, `path:code`
+        for i in range(n // 5):
+            r = vlib.case_rng(chk.seed, PID, ("nonum", i))
+            groups = [(p, [(k, nn, code) for k, nn, code in ls if k == "match" and ":" not in code]) for p, ls in gen_stream(r, odd_paths=False)]
+            groups = [(p, ls) for p, ls in groups if ls]
+            if groups:
+                cases.append({"fmt": "plain", "groups": groups, "style": r.choice(["classic", "ripgrep"]), "tabs": r.choice([1, 4, 8]),
+                              "parent": r.choice([["git", "grep", MATCH], ["git", "grep", "-i", MATCH]]), "numbers": False})
 
     def work(c):
         groups = [(p, [tuple(l) for l in ls]) for p, ls in c["groups"]]
-        inp = {"json": rg_json, "plain": plain_grep, "coloured": coloured_grep}[c["fmt"]](groups)
+        inp = plain_grep(groups, with_numbers=False) if c.get("numbers") is False else {"json": rg_json, "plain": plain_grep, "coloured": coloured_grep}[c["fmt"]](groups)
         args = ["--no-gitconfig", "--paging", "never", "--tabs", str(c["tabs"]), "--grep-output-type", c["style"]] + STYLE_ARGS
         if c["parent"]:
             return vlib.run_delta(args, stdin=inp, parent=tuple(c["parent"]))
@@ -222,7 +230,7 @@ def main(tier, replay=None):
         if rc != 0:
             chk.violation({"property": PID, "why": f"delta exits with {rc}: {err[-200:].decode('utf-8', 'replace')}", "case": c})
             continue
-        why = oracle(groups, c["style"], c["tabs"], out, check_highlight=(c["fmt"] != "plain"))
+        why = oracle(groups, c["style"], c["tabs"], out, numbers=c.get("numbers", True), check_highlight=(c["fmt"] != "plain"))
         if why:
             chk.violation({"property": PID, "why": "; ".join(why[:3]), "case": c, "output": term.strip(out)[:3000]})
         # correspondence: highlighted spans vs the model's sections, JSON streams
